@@ -74,6 +74,7 @@ class CompiledFunction:
         default_factory=dict
     )  # bytecode_pos -> (line, column)
     is_arrow: bool = False  # Arrow function: lexical this, not a constructor
+    is_method: bool = False  # method shorthand: not a constructor, has no prototype property
     inferred_name: str = ""  # name an anonymous function takes from `var f = ...`, `f = ...`, `{f: ...}`
 
 
@@ -1713,6 +1714,7 @@ class Compiler:
                 name, node.params, node.body, is_expression=True
             )
             func.inferred_name = hint
+            func.is_method = node.is_method
             func_idx = len(self.functions)
             self.functions.append(func)
 
